@@ -15,7 +15,7 @@ def add(pid, engine, category, technique, text, note, ref):
 
 add("C19", 'xenum', 'exploration',
     'bounded exhaustive enumeration of values, byte strings and declared lengths on the real quicwire package against an RFC 9000 arithmetic reference',
-    'Every value below 2^22 (quick) / 2^30 plus the first 2^26 values of the 8-byte class (thorough), every 2^k-boundary value up to 2^62-1, every 8-byte form over a 5-byte alphabet, every byte string of length <= 3 and every first byte x length 0..9 as decoder input (with different bytes behind the slice), every length class x declared-length boundary (up to 2^62-1) x remaining length 0..70 for the byte-string consumers: encoder, size function and decoder must agree with the reference on all of them. The whole check is also built for GOARCH=386 and run by the 64-bit program (declared lengths 2^32*m+k meet a 32-bit int); its findings are reported with the prefix [GOARCH=386].',
+    'Every value below 2^22 (quick) / 2^30 plus the first 2^26 values of the 8-byte class (thorough), every 2^k-boundary value up to 2^62-1, every 8-byte form over a 5-byte alphabet, every byte string of length <= 3 and every first byte x length 0..9 as decoder input (with different bytes behind the slice), every length class x declared-length boundary (up to 2^62-1) x remaining length 0..70 for the byte-string consumers: encoder, size function and decoder must agree with the reference on all of them; destinations inside guarded buffers with spare capacity 0..300: only the appended bytes may change, also when the string to append lies inside that spare capacity. The whole check is also built for GOARCH=386 and run by the 64-bit program (declared lengths 2^32*m+k meet a 32-bit int); its findings are reported with the prefix [GOARCH=386].',
     'Trusted: the 40-line arithmetic reference in checks/c19; values in [2^30+2^26, 2^62) are covered only through the boundary alphabet.',
     'DESIGN.md 4 C19')
 
@@ -26,23 +26,23 @@ add("C01", 'xenum+seqx', 'exploration',
     'DESIGN.md 4 C01, 9.2b')
 
 add("C03", 'xenum+guard', 'exploration',
-    'bounded exhaustive enumeration of byte strings (all strings over a 12-byte alphabet up to length 4/5; every truncation, extension, length-field value up to 2^62-1 in every encoding, byte substitution and bit flip of valid messages; boundary (r,s) pairs as raw, DER and inside requests; correctly encrypted and signed requests with malformed inner plaintexts; separator characters of textual parts singly and doubled; length-prefixed parts resized consistently) against 36 byte-consuming entry points, each call guarded for panic, allocation and termination in single-threaded worker subprocesses under an address-space limit',
+    'bounded exhaustive enumeration of byte strings (all strings over a 12-byte alphabet up to length 4/5; every truncation, extension, length-field value up to 2^62-1 in every encoding, byte substitution and bit flip of valid messages; boundary (r,s) pairs as raw, DER and inside requests; correctly encrypted and signed requests with malformed inner plaintexts and with unusual padded origin fields; separator characters of textual parts singly and doubled; length-prefixed parts resized consistently) against 36 byte-consuming entry points, each call guarded for panic, allocation and termination in single-threaded worker subprocesses under an address-space limit',
     'For every target and every generated input: no panic (recovered and reported), no fatal runtime error (a worker killed by the runtime is attributed to the journaled case), TotalAlloc delta within 1 MiB + 64*len (steps) / 64 KiB + 16*len (decoders), and return within the watchdog. About 0.8M calls quick, several million thorough.',
     'Arbitrary bytes are represented by the structured generators, not by all 256^n strings; allocation is measured per call with runtime.MemStats in a GOMAXPROCS=1 worker; non-termination means no progress of a worker for 60 s in the sweep and no return within 120 s in the isolated confirmation.',
     'DESIGN.md 4 C03, 9.2')
 add("C10", "xenum", "exploration",
-    "bounded exhaustive enumeration of tokens (every single-bit flip of honest tokens, full token x issuer-key matrix incl. cross-type, hand-built Token structs with moved field boundaries; every sequence up to depth 3/4 over a 9-letter menu of presentations on ONE issuer object) against type-1/type-5 issuer Verify with the RFC 9497 evaluation recomposed from group primitives as accept/reject oracle",
+    "bounded exhaustive enumeration of tokens (every single-bit flip of honest tokens, full token x issuer-key matrix incl. cross-type, hand-built Token structs with moved field boundaries; every sequence up to depth 3/4 over an 11-letter menu of presentations (incl. the bytes of an accepted token cut at other field boundaries) on ONE issuer object) against type-1/type-5 issuer Verify with the RFC 9497 evaluation recomposed from group primitives as accept/reject oracle",
     "Verify's verdict must equal 'authenticator == VOPRF(key, type||nonce||context||keyid as carried)' on every case; the verdict on a token does not depend on what the issuer object was shown before; both verdict classes are populated (recomputed authenticators for foreign keys/types form the accept class).",
     "Reference VOPRF shares circl's group arithmetic with the implementation; keys and inputs are fixed alphabets.",
     "DESIGN.md 4 C10")
 add("C11", "xenum", "exploration",
     "bounded exhaustive enumeration of (type x key x input x salt x batch size x ordered pairs of blinds) with caller-supplied blinds plus all shipped interop vectors, comparing request and token bytes across repetitions, interleaved unrelated calls and blinds",
     "Request creation must be a pure function of its arguments and the finalized token identical under every blind and on every run; the 3 Rust vectors and the 20 Go vectors must reproduce byte for byte (request, decoded response finalization, token).",
-    "Blind alphabets are boundary scalars plus DRBG values, for RSA also N-1 and respellings of one integer with leading zero bytes (same request required); 'every run' is observed as repeated in-process issuance under different issuer randomness.",
+    "Blind alphabets are boundary scalars plus DRBG values, for RSA also N-1 and respellings of one integer with leading zero bytes (same request required); degenerate blinds (nil, empty, zero, order/modulus, wrong lengths and counts) must give the same outcome on every call; 'every run' is observed as repeated in-process issuance under different issuer randomness.",
     "DESIGN.md 4 C11")
 add("C18", "xenum", "exploration",
     "bounded exhaustive enumeration of RSA public keys (every modulus bit length 16..2100/4104 x 4 value patterns x 6 exponents, plus 10 exponents whose DER ends in bytes that text handling trims), VOPRF keys and name keys against a hand-written DER/TLV reference and independent key-id computation",
-    "Both SPKI forms round-trip; the RSASSA-PSS form is byte-identical to hand-assembled DER with the literal RFC 9578 AlgorithmIdentifier; each issuer TokenKeyID equals SHA-256 of the independently serialised public key; requests of types 1/2/5 carry its last byte; type-3 requests carry SHA-256 of the name key bytes the issuer published (hand-built for every key id x KEM x KDF x AEAD), and a decoded name key serialises back to those bytes.",
+    "Both SPKI forms round-trip; the RSASSA-PSS form is byte-identical to hand-assembled DER with the literal RFC 9578 AlgorithmIdentifier; each issuer TokenKeyID equals SHA-256 of the independently serialised public key; requests of types 1/2/5 carry its last byte; type-3 requests carry SHA-256 of the name key bytes the issuer published (hand-built for every key id x KEM x KDF x AEAD), also when one client object uses several name keys in turn, and a decoded name key serialises back to those bytes.",
     "Trusted: the hand DER encoder and the 63-byte AlgorithmIdentifier literal in checks/c18; crypto/elliptic for the P-384 public key reference.",
     "DESIGN.md 4 C18")
 add("C20", 'xenum', 'exploration',
@@ -57,28 +57,28 @@ add("C04", "xenum+seqx", "model_checking",
     "Arbitrary accepted strings are represented by the structured generators; contents of an object after a rejected Unmarshal are treated as unspecified; hand encoders are the trusted reference of the wire format.",
     "DESIGN.md 4 C04")
 add("C08", 'seqx', 'model_checking',
-    'depth-bounded explicit-state enumeration of request histories (origin x blind x anonymous-id choice per step, re-registration of an origin with another index key) of one client on ONE live issuer and attester (successors by history replay), every step the full client/attester/issuer flow, against an independent HKDF / hash_to_field / crypto/elliptic reference; blinds include 2^384-1 and a 64-byte blind; plus five spellings of the client key and clients found by search whose (blinded) public key has a leading zero byte',
+    'depth-bounded explicit-state enumeration of request histories (origin x blind x anonymous-id choice per step, re-registration of an origin with another index key) of one client on ONE live issuer and attester (successors by history replay), every step the full client/attester/issuer flow, against an independent HKDF / hash_to_field / crypto/elliptic reference; blinds include 2^384-1 and a 64-byte blind; per origin a request with a second request of the same client in flight at the attester; plus five spellings of the client key and clients found by search whose (blinded) public key has a leading zero byte',
     "Every history of <= 2 (quick) / <= 3 (thorough) steps for 5 clients x 2 index-key sets: the returned ID equals the reference at every step (hence is stable across blinds, nonces, challenges, anonymous ids and history position and follows the registered index key), Evaluate's blinded request key equals f*requestKey, IDs returned earlier keep their bytes, whatever key spelling the attester accepts yields the client's ID, and the (client, index key) IDs are pairwise distinct.",
     'Client secrets, index keys and blinds are boundary-scalar alphabets; the reference (RFC 9380 XMD, HKDF-SHA-384) is in checks/c08/ref.go.',
     'DESIGN.md 4 C08, 9.2b')
 add("C09", 'seqx', 'model_checking',
-    'three searches over the real RateLimitedAttester stepped in lock-step with a two-map reference model: breadth-first to a fix-point with the cache cloned through the verif hook (one client + unverified U with anonymous ids {x,y,empty}; two clients + U), and every full-length event sequence (depth 4/5) on one persistent attester object without state merging',
+    'three searches over the real RateLimitedAttester stepped in lock-step with a two-map reference model: breadth-first to a fix-point with the cache cloned through the verif hook (one client + unverified U with anonymous ids {x,y,empty}; two clients + U), every full-length event sequence (depth 4/5) on one persistent attester object without state merging, and one long history per client with 2..130 (600) origins (bind all, repeat, foreign anonymous ids, repeat)',
     'In every reachable state every enabled event (verify, verify with bad signature / wrong blind, finalize for each client x origin x anonymous id) is applied; verdict, returned ID and the accepted-bindings map must equal the model; rejected calls leave bindings in force; unverified clients are always refused; whatever the attester object remembers outside the cache cannot change a verdict.',
     'State merging assumes decisions depend on the dumped maps and the arguments only (the third search does not); event arguments are precomputed honest byte strings.',
     'DESIGN.md 4 C09, 9.2b')
 add("C14", "xenum+envx", "exploration",
-    "bounded exhaustive differential enumeration against crypto/ed25519 and math/big references: seeds x message lengths for derive/sign, every entropy-fault script with <= 1/2 deviations for GenerateKey (returned public key and Public() overwritten by the caller before signing), 54 A x 54 R x 17 S x 3 messages plus all bit flips for Verify, all triples/pairs of a 309/786-scalar limb-boundary alphabet for the scalar arithmetic, alphabet scalars x 14 points for the point operations",
+    "bounded exhaustive differential enumeration against crypto/ed25519 and math/big references: seeds x message lengths for derive/sign, every entropy-fault script with <= 1/2 deviations for GenerateKey (returned public key and Public() overwritten by the caller before signing), 54 A x 54 R x 17 S x 3 messages plus valid signatures for low-order keys over the whole S alphabet (R = [S]B + torsion) plus all bit flips for Verify, all triples/pairs of a 309/786-scalar limb-boundary alphabet for the scalar arithmetic (alphabet closed under inversion), alphabet scalars x 14 points for the point operations",
     "Byte equality with the standard library for key derivation and signatures, identical read sequence and results under every enumerated entropy script, identical Verify verdicts on torsion/non-canonical/boundary inputs, and agreement of the internal scalar/point arithmetic with math/big and an affine Edwards reference (through the verif hook).",
     "Arithmetic equivalence is reached only through the boundary alphabets (limb patterns, q*L+r bands): a wrong carry needing an operand outside them is invisible. This is the thinnest claim of the set.",
     "DESIGN.md 4 C14")
 add("C15", 'xenum+seqx', 'exploration',
-    'bounded exhaustive enumeration of seeds x blinds x contexts (incl. lengths at SHA-512 block and padding boundaries in two variants) x messages, all ordered pairs of (blind, context), and every call-order sequence of length 2..3 over four contexts on ONE key object, blind and message buffer (arguments must stay unchanged, same context twice gives the same signature, plain Sign afterwards equals crypto/ed25519), against a math/big Edwards reference and three independent verifiers',
+    'bounded exhaustive enumeration of seeds x blinds (incl. two found by search whose scalar / inverse scalar is below 2^240) x contexts (incl. lengths at SHA-512 block and padding boundaries in two variants) x messages, all ordered pairs of (blind, context), and every call-order sequence of length 2..3 over four contexts on ONE key object, blind and message buffer (arguments must stay unchanged, same context twice gives the same signature, plain Sign afterwards equals crypto/ed25519), against a math/big Edwards reference and three independent verifiers',
     'Blinded key == compress(r*A) with r = SHA-512(blind||00||ctx)[:32] mod L; signatures deterministic and independent of what was signed before, valid under the blinded key for crypto/ed25519, this package and a math/big RFC 8032 verifier, invalid under A; unblind inverts blind; blinding commutes; different blind or context gives a different key.',
     "Seeds, blinds, contexts are fixed alphabets; blinds are passed as exact-capacity slices (aliasing is C16's subject).",
     'DESIGN.md 4 C15, 9.2b')
 
 add("C06", 'xenum', 'exploration',
-    "bounded exhaustive enumeration of (request, blind, client key) inputs to the real attester: every single-bit flip of each of the six inputs of 2/4 honest triples (also with the request object's encoding cached, also with the client already registered), every signature length 0..97, 9x9 boundary (r,s) pairs, foreign signatures / blinds / keys, malformed key encodings, blinds that are not scalars (2^384-1, 64 bytes), ciphertexts of 65535/65536/65537 bytes; reference verdict from crypto/ecdsa and an independent key-blinding reference; cache watched for writes",
+    "bounded exhaustive enumeration of (request, blind, client key) inputs to the real attester: every single-bit flip of each of the six inputs of 2/4 honest triples (also with the request object's encoding cached, also with the client already registered), every signature length 0..97, 9x9 boundary (r,s) pairs, foreign signatures / blinds / keys, malformed key encodings, blinds that are not scalars (2^384-1, 64 bytes, 49 bytes), ciphertexts of 65535/65536/65537 bytes; reference verdict from crypto/ecdsa and an independent key-blinding reference; cache watched for writes",
     'VerifyRequest returns nil exactly when the signature verifies under the request key over the hand-rebuilt message and the request key equals the client key multiplied by the reference blinding factor; every rejected request leaves the cache dump and Put count unchanged.',
     'Honest triples use boundary-scalar secrets and blinds; requests are handed over as structs as the API takes them.',
     'DESIGN.md 4 C06, 9.2b')
@@ -94,9 +94,9 @@ add("C13", "xenum+envx", "exploration",
     "DESIGN.md 4 C13")
 
 add("C05", 'xenum', 'exploration',
-    "bounded exhaustive enumeration of batch compositions (every sequence of length 1..3/4 over a 9-letter request alphabet incl. a type-1 key whose truncated id collides with the type-2 key's, x 10 issuer configurations; a probe batch against every ordered arrangement of every subset of five issuers (326 configurations); issuer objects whose key is rotated between two batches; plus large homogeneous batches crossing the 2^14 and 2^16 byte boundaries of the response list) through the real client, wire codecs, EvaluateBatch, response decoder and per-request finalization, against a per-request reference model",
+    "bounded exhaustive enumeration of batch compositions (every sequence of length 1..3/4 over a 9-letter request alphabet incl. a type-1 key whose truncated id collides with the type-2 key's, x 10 issuer configurations; a probe batch against every ordered arrangement of every subset of five issuers (326 configurations); issuer objects whose key is rotated between two batches; two type-2 issuers whose truncated key ids coincide (requests only the second can sign); response lists of exactly 63..65, 16383..16385 (65535..65537) bytes; plus large homogeneous batches crossing the 2^14 and 2^16 byte boundaries of the response list) through the real client, wire codecs, EvaluateBatch, response decoder and per-request finalization, against a per-request reference model",
     'The decoded response has exactly one entry per request in order; entry i is present exactly when a configured issuer of its type and truncated key id evaluates request i alone; every present entry finalizes under its own request state to a token that verifies independently; type-2 entries are byte-identical to the stand-alone evaluation, so failing neighbours change nothing.',
-    "Configurations where two issuers of one type share a truncated key id are excluded; the unknown-key-id letter uses the first byte of issuer A's id where that is free.",
+    "Two issuers of one type sharing a truncated key id: present iff one of them can sign, entry = stand-alone evaluation by the first that can, token judged only when that is the request's own key; the unknown-key-id letter uses the first byte of issuer A's id where that is free.",
     'DESIGN.md 4 C05, 9.2b')
 add("C07", "xenum", "exploration",
     "bounded exhaustive enumeration of encoded requests to the real rate-limited issuer: every single-bit change, every truncation and 5 extensions of honest and of hand-crafted consistent requests, plus hand-crafted requests (go-hpke + crypto/ecdsa, independent of the client) for each rejecting class, incl. correctly framed and signed encrypted parts of 0..49 bytes, each also offered to an issuer that has just served an honest request",
@@ -105,7 +105,7 @@ add("C07", "xenum", "exploration",
     "DESIGN.md 4 C07")
 
 add("C02", 'xenum', 'exploration',
-    'bounded exhaustive enumeration of responses handed to the real client finalization of all four token types: every single-bit flip, truncation and 3 extensions of honest responses, the full (issuer key) x (state of request i) x (response for request j) matrices, caller-supplied salts of six boundary lengths for type 2, a second finalization on the same state after the caller scrubbed the tokens of the first (honest and corrupted responses), and for type 5 every sequence of element indices up to length n+1 both spliced into the honest response and evaluated afresh by the real key',
+    'bounded exhaustive enumeration of responses handed to the real client finalization of all four token types: every single-bit flip, truncation and 3 extensions of honest responses, the full (issuer key) x (state of request i) x (response for request j) matrices, caller-supplied salts of six boundary lengths for type 2, a second finalization on the same state after the caller scrubbed the tokens of the first and wrote the next response over the first in the same buffer (honest and corrupted responses), and for type 5 every sequence of element indices up to length n+1 both spliced into the honest response and evaluated afresh by the real key',
     "Finalization returns an error, or every returned token verifies under the pinned key with an independent verifier and carries the request's nonce, challenge digest and key id (the caller's argument buffers are overwritten after request creation); additionally the classes the statement lists (single-bit corruption, other issuer key, other request, dropped/duplicated/reordered elements) must be rejected outright.",
     'Requests, keys, nonces are fixed alphabets (2/4 requests x 2/3 keys per type); truncations and extensions are judged semantically only.',
     'DESIGN.md 4 C02, 9.2')
@@ -117,7 +117,7 @@ add("C16", 'xenum+seqx', 'model_checking',
     'DESIGN.md 4 C16, 9.2b')
 
 add("C17", 'vsched', 'model_checking',
-    'stateless schedule exploration with a pre-emption bound (quick: bound 1, coarse granularity; thorough: fine granularity bound 1, then coarse granularity bound 2) of 28 scenarios (2-3 goroutines, one call each on one shared issuer, attester or key: freshly constructed, or with a sequential history of rejected and served requests) over pat-go sources instrumented with scheduling points, executed under a cooperative scheduler that is invisible to the Go race detector, so that every explored schedule is also checked for data races by happens-before analysis',
+    'stateless schedule exploration with a pre-emption bound (quick: bound 1, coarse granularity; thorough: fine granularity bound 1, then coarse granularity bound 2) of 30 scenarios (2-3 goroutines, one call each on one shared issuer, attester or key: freshly constructed, with a sequential history of rejected and served requests, or built over a key object its owner has already used) over pat-go sources instrumented with scheduling points, executed under a cooperative scheduler that is invisible to the Go race detector, so that every explored schedule is also checked for data races by happens-before analysis',
     "For each of >10^4 distinct schedules per run: no race report on any memory (pat-go, circl, math/big, standard library), every call's result is one a sequential call could have produced (responses finalize to valid tokens, key ids / blinded keys / signatures equal the sequential ones, forged tokens rejected), no deadlock, no panic. Finds data races (lazy initialisation, in-place normalisation, memoisation, shared scratch buffers, counters, self-reordering lists) and race-free atomicity bugs (correctly locked check-then-act, CAS flag instead of sync.Once).",
     "Dependencies are atomic steps of a schedule (their races are still detected); coarse granularity = statements in tokens/ and in every function that mentions a package-level variable, function entries elsewhere; the race detector's bounded shadow history means a given race is reported in some schedules only.",
     'DESIGN.md 3.4, 4 C17, 9.2')
